@@ -2,7 +2,7 @@
    bool, option, list, prod, unit, sumbool map to OCaml's; Z, positive, nat
    stay inductive. No Extract Constant. Run from /verif/ocaml (see build.sh). *)
 From Coq Require Import Extraction ExtrOcamlBasic.
-From MPB Require Import Base BarState F64 Percent Filler Decor Container Sync SizeFmt Proxy Actor PQueue.
+From MPB Require Import Base BarState F64 Percent Filler Decor Container Sync SizeFmt Proxy Actor PQueue Vt.
 Extraction Language OCaml.
 Extraction "mpb_model.ml"
   Z.add Z.mul Z.sub Z.quotrem Z.of_nat Z.to_nat Z.compare Z.opp
@@ -12,4 +12,5 @@ Extraction "mpb_model.ml"
   pstep offers_fast size_format percent_format time_fields ewma_update float_bits speed_of_avg speed_of_avg_q units1024 units1000
   sstep exec finished answer_of
   spec_call check_lin terminal
-  qstep init_pq.
+  qstep init_pq
+  lex tok_step.
